@@ -37,7 +37,7 @@ def model_correspondence(ctx):
     cases = []
     parts = HOSTILE + [b"", b"dir", b"a/b", b"x"]
     for _ in range(400 if ctx.tier == "quick" else 20000):
-        d = rng.choice([None, None, b"out", b"/tmp/x", b"a/b"])
+        d = rng.choice([None, None, b"out", b"/tmp/x", b"a/b", b"out/", b"./out/", b"/tmp/x/", b"a//", b"/", b"."])
         pa = rng.choice(parts + [bytes(rng.choice(b"./\\ab") for _ in range(rng.randint(0, 10)))])
         nm = rng.choice(parts[:-4] + [bytes(rng.choice(b"./\\ab") for _ in range(rng.randint(1, 10)))])
         if not nm:
@@ -56,9 +56,10 @@ def model_correspondence(ctx):
         t = lhs.split()
         d = bytes.fromhex(t[1]) if t[1] != "-" else None
         out = bytes.fromhex(rhs.strip()) if rhs.strip() != "-" else b""
-        rel = out[len(d) + 1:] if d else out
+        # lexical containment: the result extends the extraction directory by a separator and a path that never climbs above its start
+        rel = out[len(d):] if d else out
+        bad = (d is not None and not out.startswith(d)) or (d is not None and not d.endswith(b"/") and not rel.startswith(b"/")) or (d is None and rel.startswith(b"/"))
         depth = 0
-        bad = rel.startswith(b"/") or (d is not None and not out.startswith(d + b"/"))
         for c in rel.split(b"/"):
             if c == b"..":
                 depth -= 1
@@ -121,7 +122,9 @@ def run(ctx):
         opts = rng.choice([[], [], ["-w"], ["-w"], ["-c"], ["-w", "-c"]])
         args += opts
         if mode.endswith("-d"):
-            args += ["-d", "out"]
+            # every spelling of the same directory: plain, trailing separator(s), ./ prefix, absolute
+            dform = rng.choice(["out", "out", "out/", "out/", "./out", "./out/", "out//", outdir, outdir + "/"])
+            args += ["-d", dform]
         args.append(img)
         if mode.startswith("single"):
             n_ = rng.choice(names)
@@ -136,6 +139,8 @@ def run(ctx):
         after = snapshot(top, outdir)
         ctx.count((ci, mode, tuple(names)))
         ctx.bump("mode:" + mode + ("+" + "".join(o[1] for o in opts) if opts else ""))
+        if mode.endswith("-d"):
+            ctx.bump("dform:" + ("absolute" if dform.startswith("/") else "relative") + (" trailing /" if dform.endswith("/") else ""))
         inp = {"mode": mode, "options": opts, "names": [hexs(n_) for n_ in names], "flavour": flav, "argv": args[1:]}
         if rc not in (0, 1):
             ctx.fail("crash", "unadf exit %d" % rc, inp, actual=r.stderr[-300:].decode("latin-1") if rc != 124 else "timeout")
